@@ -39,6 +39,10 @@ type C02Case struct {
 	FirstSeg  []int     `json:"first_seg"`
 	Seed      int64     `json:"seed"`
 	Steps     []C02Step `json:"steps"`
+	// SlowTarget > 0: final phase in which the target half-closes first and then does not read while the client
+	// uploads this many bytes and half-closes; the target only resumes reading once the proxy is done with the
+	// connection. Everything must still arrive, followed by a normal end of stream.
+	SlowTarget int `json:"slow_target"`
 }
 
 func genSizes(t *rapid.T, label string, big int) []int {
@@ -57,6 +61,7 @@ func genC02(maxBytes int) func(t *rapid.T) C02Case {
 		// chunk plan of the first send: biased to split the 7/19/n-byte address, end exactly on it, or run past it
 		c.FirstPlan = rapid.SliceOfN(rapid.SampledFrom([]int{1, 2, 3, 6, 7, 8, 18, 19, 20, 11, 12, 100, 16383}), 0, 5).Draw(t, "firstplan")
 		c.FirstSeg = genSizes(t, "firstseg", 50)
+		c.SlowTarget = rapid.SampledFrom([]int{0, 0, 0, 0, 300_000, 1 << 20}).Draw(t, "slowtarget")
 		n := rapid.IntRange(0, 10).Draw(t, "nsteps")
 		for i := 0; i < n; i++ {
 			s := C02Step{Kind: rapid.SampledFrom([]string{"csend", "tsend", "both", "cfin", "tfin", "sync", "csend", "tsend"}).Draw(t, "kind")}
@@ -128,6 +133,10 @@ func runC02(c C02Case, info *kit.Info) *kit.Finding {
 
 	cl, err := net.Dial("tcp", front.Addr)
 	if err != nil {
+		if kit.EnvNetError(err) {
+			info.Skipped = "host out of ports: " + err.Error()
+			return nil
+		}
 		return kit.Violation("relay:dial-refused", "cannot connect to the proxy: %v", err)
 	}
 	cconn := cl.(*net.TCPConn)
@@ -194,6 +203,12 @@ func runC02(c C02Case, info *kit.Info) *kit.Finding {
 	}
 	syncUp := func(final bool) *kit.Finding {
 		ok := kit.WaitFor(c02Bound, func() bool {
+			if _, _, e, _ := tr.State(); e != nil {
+				return true // the target's connection broke: judge at once
+			}
+			if _, _, e, _ := cr.State(); e != nil {
+				return true
+			}
 			if tr.Len() < len(cSent) || clientPlainLen() < len(tSent) {
 				return false
 			}
@@ -229,6 +244,12 @@ func runC02(c C02Case, info *kit.Info) *kit.Finding {
 		}
 		if f := premature(); f != nil {
 			return f
+		}
+		if _, _, terr, _ := tr.State(); terr != nil {
+			return kit.Violation("relay:c2t-broken", "the target's connection broke (%v) after %d of the %d bytes the client sent (client half-closed: %v)", terr, tr.Len(), len(cSent), cFin)
+		}
+		if _, _, cerr, _ := cr.State(); cerr != nil {
+			return kit.Violation("relay:t2c-broken", "the client's connection broke (%v) after %d of the %d bytes the target sent (target half-closed: %v)", cerr, clientPlainLen(), len(tSent), tFin)
 		}
 		if !ok {
 			tn, teof, terr, _ := tr.State()
@@ -326,6 +347,40 @@ func runC02(c C02Case, info *kit.Info) *kit.Finding {
 	// Final: check, then half-close whatever is still open, in a seed-chosen order.
 	if f := syncUp(false); f != nil {
 		return f
+	}
+	if c.SlowTarget > 0 && !cFin {
+		info.Class("slow-target-final")
+		info.NonTrivial = true
+		if !tFin {
+			tFin, tFinAt = true, time.Now()
+			tconn.CloseWrite()
+		}
+		tr.Pause()
+		data := kit.DetBytes(c.Seed+99, c.SlowTarget)
+		cSent = append(cSent, data...)
+		werr := make(chan error, 1)
+		go func() {
+			_, err := cconn.Write(encode(data, nil))
+			if err == nil {
+				err = cconn.CloseWrite()
+			}
+			werr <- err
+		}()
+		// the target stays deaf until the proxy has finished with the connection (or 1.5 s)
+		select {
+		case <-rec.Done():
+		case <-time.After(1500 * time.Millisecond):
+		}
+		tr.Resume()
+		select {
+		case err := <-werr:
+			if err != nil {
+				return kit.Violation("relay:client-write", "client upload to a slow target failed: %v", err)
+			}
+		case <-time.After(c02Bound):
+			return kit.Violation("relay:stalled", "client upload of %d bytes to a slow target did not finish within %v", c.SlowTarget, c02Bound)
+		}
+		cFin, cFinAt = true, time.Now().Add(-c02Bound) // the half-close happened inside the writer goroutine, before now
 	}
 	order := []string{"c", "t"}
 	if c.Seed%2 == 0 {
